@@ -58,6 +58,45 @@ func (c *strLangCtx) lang(v ssa.Value, depth int) string {
 	case *ssa.Call:
 		name := callName(x.Common())
 		args := x.Call.Args
+		if strings.HasPrefix(name, "strings.(Builder).String") && len(args) == 1 {
+			// the text written into the builder so far, in program order (straight-line use)
+			var parts []string
+			type w struct {
+				pos  token.Pos
+				lang string
+			}
+			var ws []w
+			okB := true
+			if refs := args[0].Referrers(); refs != nil {
+				for _, ref := range *refs {
+					wc, isCall := ref.(*ssa.Call)
+					if !isCall || wc == x {
+						continue
+					}
+					wn := callName(&wc.Call)
+					switch {
+					case wn == "strings.(Builder).WriteString" && len(wc.Call.Args) == 2 && wc.Block() == x.Block():
+						ws = append(ws, w{wc.Pos(), c.lang(wc.Call.Args[1], depth+1)})
+					case wn == "strings.(Builder).WriteByte" || wn == "strings.(Builder).WriteRune":
+						if k, isK := wc.Call.Args[1].(*ssa.Const); isK && wc.Block() == x.Block() {
+							ws = append(ws, w{wc.Pos(), rxQuote(string(rune(k.Int64())))})
+						} else {
+							okB = false
+						}
+					case wn == "strings.(Builder).Grow" || wn == "strings.(Builder).Len":
+					default:
+						okB = false
+					}
+				}
+			}
+			if okB {
+				sort.Slice(ws, func(i, j int) bool { return ws[i].pos < ws[j].pos })
+				for _, e := range ws {
+					parts = append(parts, e.lang)
+				}
+				return strings.Join(parts, "")
+			}
+		}
 		switch {
 		case name == "strconv.FormatInt" && len(args) == 2:
 			c.lang(args[0], depth+1) // records the fields read
